@@ -407,7 +407,7 @@ theorem unplace_entities (w : World) (e : Ent) (t row : Nat) :
   simp only [unplace, Table.remove_snd]
   by_cases hb : (row != (w.tbl t).len - 1) = true
   · simp only [hb, if_true]; rfl
-  · simp only [hb, if_false]; rfl
+  · simp only [hb]; rfl
 
 /-- the index after the removal block -/
 theorem unplace_lookup {w : World} (h : IdxInv w) {e : Ent} {t row : Nat}
@@ -768,7 +768,7 @@ theorem moveRowW_entities (w : World) (e : Ent) (oldT row newT newIndex : Nat) (
   by_cases hb : (row != ((w.modTbl newT (copyRow (w.tbl oldT) row newIndex keep)).tbl oldT).len - 1)
       = true
   · simp only [hb, if_true]; rfl
-  · simp only [hb, if_false]; rfl
+  · simp only [hb]; rfl
 
 theorem modTbl_tbl_ne (w : World) {t t' : Nat} (f : Table → Table) (h : t ≠ t') :
     (w.modTbl t f).tbl t' = w.tbl t' := setTbl_tbl_ne w _ h
@@ -869,6 +869,482 @@ theorem addMove {w : World} (h : IdxInv w) {e : Ent} {oldT row newT : Nat} (keep
     (by rw [hpl]; exact hw.id) (by rw [hpl]; exact hw.len) (fun r _ => by rw [hpl]; exact hw.getEntity r)
   obtain ⟨e1, e2⟩ := addMove_decomp w e oldT row newT keep hne hnl hel
   exact h3.congr e2 e1
+
+/-- the intermediate facts of the decomposition of `addMove` (used by the frame theorems) -/
+theorem addMove_steps {w : World} (h : IdxInv w) {e : Ent} {oldT row newT : Nat} (keep : Mask)
+    (hne : oldT ≠ newT) (he : w.entities[e.id]? = some (oldT, row)) (ht : oldT ≠ maxU32)
+    (hnl : newT < w.tables.length) (hb : (w.tbl newT).len + 1 < 2 ^ 32) :
+    IdxInv (World.unplace w e oldT row) ∧
+    IdxInv (World.place (World.unplace w e oldT row) e newT) ∧
+    e.id ≤ (World.unplace w e oldT row).entities.length ∧
+    (World.place (World.unplace w e oldT row) e newT).tbl newT = ((w.tbl newT).add e).1 ∧
+    ((w.tbl newT).add e).1.Shape ∧
+    ((w.tbl newT).add e).1.getEntity (w.tbl newT).len = e ∧
+    Table.WriteRel (w.tbl newT).len ((w.tbl newT).add e).1
+      (copyRow (w.tbl oldT) row (w.tbl newT).len keep ((w.tbl newT).add e).1) ∧
+    (World.unplace w e oldT row).tbl newT = w.tbl newT := by
+  have hel : e.id < w.entities.length := by
+    rcases Nat.lt_or_ge e.id w.entities.length with h1 | h1
+    · exact h1
+    · rw [List.getElem?_eq_none h1] at he; cases he
+  have hune : (World.unplace w e oldT row).tbl newT = w.tbl newT := by
+    simp only [tbl, unplace_tables, List.getD_eq_getElem?_getD, List.getElem?_set_ne hne]
+  have hulen : (World.unplace w e oldT row).tables.length = w.tables.length := by
+    rw [unplace_tables, List.length_set]
+  have huel : (World.unplace w e oldT row).entities.length = w.entities.length := by
+    rw [unplace_entities]; split <;> simp only [List.length_modify]
+  have h1 := h.unplace he ht
+  have h2 := h1.place e (t := newT) (by rw [hulen]; exact hnl) (by rw [hune]; exact hb)
+    (by rw [huel]; omega) (h.unplace_fresh he ht)
+  have hpl : (World.place (World.unplace w e oldT row) e newT).tbl newT = ((w.tbl newT).add e).1 := by
+    have : (World.place (World.unplace w e oldT row) e newT).tables[newT]? =
+        some ((w.tbl newT).add e).1 := by
+      rw [place_tables, hune]; exact List.getElem?_set_self (by rw [hulen]; exact hnl)
+    exact tbl_of_get this
+  have hw := copyRow_writeRel (w.tbl oldT) row (w.tbl newT).len keep ((w.tbl newT).add e).1
+    (by rw [Table.add_fst_len]; omega)
+  have hS0 := h.shape newT _ (get_of_lt hnl)
+  have hS : ((w.tbl newT).add e).1.Shape := Table.add_shape hS0 e hb
+  have hge := Table.add_getEntity_new hS0 e hb
+  rw [Table.add_snd] at hge
+  exact ⟨h1, h2, by rw [huel]; omega, hpl, hS, hge, hw, hune⟩
+
+end IdxInv
+
+/-! ### 2f. `moveEntities` -/
+
+/-- folding `set` over `range n`: positions not hit are unchanged -/
+theorem foldl_set_miss {α : Type} (f : Nat → Nat) (g : Nat → α) (i : Nat) :
+    ∀ (n : Nat) (E : List α), (∀ k : Nat, k < n → f k ≠ i) →
+      ((List.range n).foldl (fun E k => E.set (f k) (g k)) E)[i]? = E[i]?
+  | 0, E, _ => rfl
+  | n + 1, E, h => by
+    rw [List.range_succ, List.foldl_append]
+    simp only [List.foldl_cons, List.foldl_nil]
+    rw [List.getElem?_set_ne (h n (Nat.lt_succ_self n))]
+    exact foldl_set_miss f g i n E (fun k hk => h k (Nat.lt_succ_of_lt hk))
+
+theorem foldl_set_length {α : Type} (f : Nat → Nat) (g : Nat → α) :
+    ∀ (n : Nat) (E : List α),
+      ((List.range n).foldl (fun E k => E.set (f k) (g k)) E).length = E.length
+  | 0, E => rfl
+  | n + 1, E => by
+    rw [List.range_succ, List.foldl_append]
+    simp only [List.foldl_cons, List.foldl_nil, List.length_set]
+    exact foldl_set_length f g n E
+
+/-- folding `set` over `range n`: a position hit exactly once holds that value -/
+theorem foldl_set_hit {α : Type} (f : Nat → Nat) (g : Nat → α) (i k : Nat) :
+    ∀ (n : Nat) (E : List α), k < n → f k = i → (∀ k' : Nat, k' < n → k' ≠ k → f k' ≠ i) →
+      i < E.length → ((List.range n).foldl (fun E k => E.set (f k) (g k)) E)[i]? = some (g k)
+  | 0, _, hk, _, _, _ => absurd hk (Nat.not_lt_zero _)
+  | n + 1, E, hk, hf, hinj, hi => by
+    rw [List.range_succ, List.foldl_append]
+    simp only [List.foldl_cons, List.foldl_nil]
+    by_cases hkn : k = n
+    · subst hkn
+      rw [hf]
+      exact List.getElem?_set_self (by rw [foldl_set_length]; exact hi)
+    · rw [List.getElem?_set_ne (hinj n (Nat.lt_succ_self n) (fun hh => hkn hh.symm))]
+      exact foldl_set_hit f g i k n E (by omega) hf
+        (fun k' hk' hne => hinj k' (Nat.lt_succ_of_lt hk') hne) hi
+
+namespace World
+
+/-- the state change of `moveEntities` (verbatim) -/
+def moveEntitiesW (w : World) (src dst : Nat) (count : Nat) : World :=
+  let oldLen := (w.tbl dst).len
+  let w := w.modTbl dst fun D => D.addAll (w.tbl src) count
+  let newLen := (w.tbl dst).len
+  let w := (List.range (newLen - oldLen)).foldl (fun (w : World) k =>
+    let i := oldLen + k
+    let e := (w.tbl dst).getEntity i
+    { w with entities := w.entities.set e.id (dst, i) }) w
+  w.modTbl src Table.reset
+
+theorem moveEntities_eq (src dst count : Nat) (w : World) :
+    moveEntities src dst count w = .ok () (moveEntitiesW w src dst count) := rfl
+
+/-- a fold of index writes that reads only the tables -/
+theorem foldl_index_writes (TS : List Table) (F : World → Nat → World) (f : Nat → Nat)
+    (g : Nat → Nat × Nat)
+    (hF : ∀ (w : World) (k : Nat), w.tables = TS →
+      (F w k).tables = TS ∧ (F w k).entities = w.entities.set (f k) (g k)) :
+    ∀ (l : List Nat) (w : World), w.tables = TS →
+      (l.foldl F w).tables = TS ∧
+      (l.foldl F w).entities = l.foldl (fun E k => E.set (f k) (g k)) w.entities
+  | [], w, h => ⟨h, rfl⟩
+  | k :: l, w, h => by
+    obtain ⟨h1, h2⟩ := hF w k h
+    obtain ⟨h3, h4⟩ := foldl_index_writes TS F f g hF l (F w k) h1
+    simp only [List.foldl_cons]
+    exact ⟨h3, by rw [h4, h2]⟩
+
+theorem tbl_congr {w : World} {TS : List Table} (h : w.tables = TS) (t : Nat) :
+    w.tbl t = TS.getD t default := by
+  simp only [tbl, h]
+
+/-- one iteration of the index loop of `moveEntities` -/
+def idxStep (dst base : Nat) (w : World) (k : Nat) : World :=
+  { w with entities := w.entities.set ((w.tbl dst).getEntity (base + k)).id (dst, base + k) }
+
+theorem moveEntitiesW_spec (w : World) (src dst count : Nat) (hne : src ≠ dst)
+    (hd : dst < w.tables.length) :
+    (moveEntitiesW w src dst count).tables =
+      (w.tables.set dst ((w.tbl dst).addAll (w.tbl src) count)).set src (w.tbl src).reset ∧
+    (moveEntitiesW w src dst count).entities =
+      (List.range count).foldl (fun E k => E.set
+        (((w.tbl dst).addAll (w.tbl src) count).getEntity ((w.tbl dst).len + k)).id
+        (dst, (w.tbl dst).len + k)) w.entities := by
+  have h1 : (w.modTbl dst fun D => D.addAll (w.tbl src) count).tbl dst =
+      (w.tbl dst).addAll (w.tbl src) count := modTbl_tbl_self _ hd
+  have hfold := foldl_index_writes
+    (w.tables.set dst ((w.tbl dst).addAll (w.tbl src) count))
+    (idxStep dst (w.tbl dst).len)
+    (fun k => (((w.tbl dst).addAll (w.tbl src) count).getEntity ((w.tbl dst).len + k)).id)
+    (fun k => (dst, (w.tbl dst).len + k))
+    (by
+      intro w' k hw'
+      refine ⟨hw', ?_⟩
+      have : w'.tbl dst = (w.tbl dst).addAll (w.tbl src) count := by
+        apply tbl_of_get; rw [hw']; exact List.getElem?_set_self hd
+      show w'.entities.set _ _ = _
+      rw [this])
+    (List.range count) (w.modTbl dst fun D => D.addAll (w.tbl src) count) rfl
+  have hn : ((w.modTbl dst fun D => D.addAll (w.tbl src) count).tbl dst).len - (w.tbl dst).len
+      = count := by rw [h1, Table.addAll_len]; omega
+  have hdef : moveEntitiesW w src dst count =
+      ((List.range (((w.modTbl dst fun D => D.addAll (w.tbl src) count).tbl dst).len - (w.tbl dst).len)).foldl
+        (idxStep dst (w.tbl dst).len) (w.modTbl dst fun D => D.addAll (w.tbl src) count)).modTbl src
+          Table.reset := rfl
+  rw [hdef, hn]
+  obtain ⟨ht, he⟩ := hfold
+  constructor
+  · rw [modTbl_tables, ht]
+    have : ((List.range count).foldl (idxStep dst (w.tbl dst).len)
+        (w.modTbl dst fun D => D.addAll (w.tbl src) count)).tbl src = w.tbl src := by
+      rw [tbl_congr ht]
+      simp only [tbl, List.getD_eq_getElem?_getD, List.getElem?_set_ne (Ne.symm hne)]
+    rw [this]
+  · rw [modTbl_entities, he]; rfl
+
+end World
+
+namespace IdxInv
+
+open World
+
+/-- **2f** `moveEntities src dst count` for `src ≠ dst`, `count` = all rows of `src`, same
+    column layout. -/
+theorem moveEntities {w : World} (h : IdxInv w) {src dst count : Nat} (hne : src ≠ dst)
+    (hs : src < w.tables.length) (hd : dst < w.tables.length) (hc : count = (w.tbl src).len)
+    (hids : (w.tbl src).ids = (w.tbl dst).ids) (hzst : (w.tbl src).zst = (w.tbl dst).zst)
+    (hb : (w.tbl dst).len + count < 2 ^ 32) :
+    IdxInv (moveEntitiesW w src dst count) := by
+  obtain ⟨hTS, hE⟩ := moveEntitiesW_spec w src dst count hne hd
+  have hS := get_of_lt hs
+  have hD := get_of_lt hd
+  have hSs := h.shape src _ hS
+  have hDs := h.shape dst _ hD
+  have hcle : count ≤ (w.tbl src).len := by omega
+  -- the handles written by the loop
+  have hf : ∀ k : Nat, k < count →
+      ((w.tbl dst).addAll (w.tbl src) count).getEntity ((w.tbl dst).len + k) =
+        (w.tbl src).getEntity k := by
+    intro k hk
+    rw [Table.addAll_getEntity hDs hSs count hcle hb _ (by omega), if_neg (by omega)]
+    congr 1; omega
+  have hsrcIdx : ∀ k : Nat, k < count →
+      w.entities[((w.tbl src).getEntity k).id]? = some (src, k) :=
+    fun k hk => h.rowIdx src _ k hS (by omega)
+  -- index lookups after the move
+  have hL1 : ∀ k : Nat, k < count →
+      (moveEntitiesW w src dst count).entities[((w.tbl src).getEntity k).id]? =
+        some (dst, (w.tbl dst).len + k) := by
+    intro k hk
+    rw [hE]
+    apply foldl_set_hit _ (fun k => (dst, (w.tbl dst).len + k)) _ k count _ hk
+      (by rw [hf k hk])
+    · intro k' hk' hkk heq
+      rw [hf k' hk'] at heq
+      exact hkk (h.row_inj hS hS (by omega) (by omega) heq).2
+    · have := hsrcIdx k hk
+      rcases Nat.lt_or_ge ((w.tbl src).getEntity k).id w.entities.length with h1 | h1
+      · exact h1
+      · rw [List.getElem?_eq_none h1] at this; cases this
+  have hL2 : ∀ i : Nat, (∀ k : Nat, k < count → ((w.tbl src).getEntity k).id ≠ i) →
+      (moveEntitiesW w src dst count).entities[i]? = w.entities[i]? := by
+    intro i hi
+    rw [hE]
+    apply foldl_set_miss
+    intro k hk
+    rw [hf k hk]; exact hi k hk
+  have hget : ∀ (t1 : Nat) (T1 : Table), (moveEntitiesW w src dst count).tables[t1]? = some T1 →
+      (t1 = src ∧ T1 = (w.tbl src).reset) ∨
+      (t1 = dst ∧ T1 = (w.tbl dst).addAll (w.tbl src) count) ∨
+      (t1 ≠ src ∧ t1 ≠ dst ∧ w.tables[t1]? = some T1) := by
+    intro t1 T1 h1
+    rw [hTS] at h1
+    by_cases h2 : t1 = src
+    · subst h2
+      rw [List.getElem?_set_self (by rw [List.length_set]; exact hs)] at h1
+      exact Or.inl ⟨rfl, (Option.some.inj h1).symm⟩
+    · rw [List.getElem?_set_ne (Ne.symm h2)] at h1
+      by_cases h3 : t1 = dst
+      · subst h3
+        rw [List.getElem?_set_self hd] at h1
+        exact Or.inr (Or.inl ⟨rfl, (Option.some.inj h1).symm⟩)
+      · rw [List.getElem?_set_ne (Ne.symm h3)] at h1
+        exact Or.inr (Or.inr ⟨h2, h3, h1⟩)
+  have hDnew : (moveEntitiesW w src dst count).tables[dst]? =
+      some ((w.tbl dst).addAll (w.tbl src) count) := by
+    rw [hTS, List.getElem?_set_ne hne]; exact List.getElem?_set_self hd
+  -- a row outside `src` does not hold a moved ID
+  have hother : ∀ (t1 : Nat) (T1 : Table) (r : Nat), w.tables[t1]? = some T1 → r < T1.len →
+      t1 ≠ src → ∀ k : Nat, k < count → ((w.tbl src).getEntity k).id ≠ (T1.getEntity r).id := by
+    intro t1 T1 r h1 hr h2 k hk heq
+    exact h2 (h.row_inj hS h1 (by omega) hr heq).1.symm
+  refine ⟨?_, ?_, ?_, ?_⟩
+  · intro t1 T1 h1
+    rcases hget t1 T1 h1 with ⟨_, rfl⟩ | ⟨_, rfl⟩ | ⟨_, _, h2⟩
+    · exact Table.reset_shape hSs
+    · exact Table.addAll_shape hDs hSs hids hzst count hcle hb
+    · exact h.shape t1 T1 h2
+  · intro t1 T1 h1
+    rcases hget t1 T1 h1 with ⟨rfl, rfl⟩ | ⟨rfl, rfl⟩ | ⟨_, _, h2⟩
+    · rw [Table.reset_id]; exact h.tid t1 _ hS
+    · rw [Table.addAll_id]; exact h.tid t1 _ hD
+    · exact h.tid t1 T1 h2
+  · intro t1 T1 r h1 hr
+    rcases hget t1 T1 h1 with ⟨rfl, rfl⟩ | ⟨rfl, rfl⟩ | ⟨h2, _, h3⟩
+    · rw [Table.reset_len] at hr; exact absurd hr (Nat.not_lt_zero _)
+    · rw [Table.addAll_len] at hr
+      rw [Table.addAll_getEntity hDs hSs count hcle hb r hr]
+      by_cases hrl : r < (w.tbl t1).len
+      · rw [if_pos hrl, hL2 _ (hother t1 _ r hD hrl (Ne.symm hne))]
+        exact h.rowIdx t1 _ r hD hrl
+      · rw [if_neg hrl, hL1 _ (by omega)]
+        congr 2; omega
+    · rw [hL2 _ (hother t1 T1 r h3 hr h2)]; exact h.rowIdx t1 T1 r h3 hr
+  · intro i t1 r1 hi ht1
+    by_cases hex : ∃ k : Nat, k < count ∧ ((w.tbl src).getEntity k).id = i
+    · obtain ⟨k, hk, rfl⟩ := hex
+      rw [hL1 k hk] at hi
+      obtain ⟨rfl, rfl⟩ := Prod.mk.inj (Option.some.inj hi)
+      refine ⟨_, hDnew, by rw [Table.addAll_len]; omega, ?_⟩
+      rw [hf k hk]
+    · have hno : ∀ k : Nat, k < count → ((w.tbl src).getEntity k).id ≠ i :=
+        fun k hk heq => hex ⟨k, hk, heq⟩
+      rw [hL2 i hno] at hi
+      obtain ⟨T1, hT1, hr1, hid1⟩ := h.idxRow i t1 r1 hi ht1
+      have hts : t1 ≠ src := by
+        intro heq; subst heq
+        have := tbl_of_get hT1; subst this
+        exact hno r1 (by omega) hid1
+      by_cases htd : t1 = dst
+      · subst htd
+        have := tbl_of_get hT1; subst this
+        refine ⟨_, hDnew, by rw [Table.addAll_len]; omega, ?_⟩
+        rw [Table.addAll_getEntity hDs hSs count hcle hb r1 (by omega), if_pos hr1]; exact hid1
+      · refine ⟨T1, ?_, hr1, hid1⟩
+        rw [hTS, List.getElem?_set_ne (Ne.symm hts), List.getElem?_set_ne (Ne.symm htd)]
+        exact hT1
+
+end IdxInv
+
+/-! ### 2g. `createEntities` -/
+
+namespace World
+
+/-- one iteration of the loop of `createEntities` (verbatim) -/
+def createStep (t start : Nat) (w : World) (i : Nat) : World :=
+    let idx := start + i
+    let (pool, e) := w.pool.get
+    let w := { (w.modTbl t fun T => { T with ents := T.ents.set idx e }) with pool }
+    if e.id == w.entities.length then
+      { w with entities := w.entities ++ [(t, idx)], isTarget := w.isTarget ++ [false] }
+    else
+      { w with entities := w.entities.set e.id (t, idx), isTarget := w.isTarget.set e.id false }
+
+/-- the state after `k` iterations of the loop of `createEntities t count` -/
+def createPrefix (w : World) (t count k : Nat) : World :=
+  (List.range k).foldl (createStep t (w.tbl t).len) (w.modTbl t fun T => T.alloc count)
+
+/-- the state change of `createEntities` -/
+def createEntitiesW (w : World) (t count : Nat) : World := createPrefix w t count count
+
+theorem createEntities_eq (t count : Nat) (w : World) :
+    createEntities t count w = .ok () (createEntitiesW w t count) := rfl
+
+theorem createPrefix_succ (w : World) (t count k : Nat) :
+    createPrefix w t count (k + 1) =
+      createStep t (w.tbl t).len (createPrefix w t count k) k := by
+  simp only [createPrefix, List.range_succ, List.foldl_append, List.foldl_cons, List.foldl_nil]
+
+/-- what the pool must guarantee about the handle it hands out next: its ID is at most one past
+    the index, and it is not indexed to a table -/
+def PoolFresh (w : World) : Prop :=
+  (w.pool.get).2.id ≤ w.entities.length ∧
+  ∀ t' r' : Nat, w.entities[(w.pool.get).2.id]? = some (t', r') → t' = maxU32
+
+theorem createStep_tables (t start : Nat) (w : World) (k : Nat) :
+    (createStep t start w k).tables =
+      w.tables.set t { w.tbl t with ents := (w.tbl t).ents.set (start + k) (w.pool.get).2 } := by
+  simp only [createStep]
+  split <;> rfl
+
+theorem createStep_entities (t start : Nat) (w : World) (k : Nat) :
+    (createStep t start w k).entities =
+      if (w.pool.get).2.id = w.entities.length then w.entities ++ [(t, start + k)]
+      else w.entities.set (w.pool.get).2.id (t, start + k) := by
+  simp only [createStep]
+  by_cases hb : (w.pool.get).2.id = w.entities.length
+  · have hb' : ((w.pool.get).2.id == w.entities.length) = true := by simpa using hb
+    rw [if_pos hb]
+    split
+    · rfl
+    · rename_i hc; exact absurd hb' hc
+  · have hb' : ((w.pool.get).2.id == w.entities.length) = false := by simpa using hb
+    rw [if_neg hb]
+    split
+    · rename_i hc
+      have hc' : ((w.pool.get).2.id == w.entities.length) = true := hc
+      rw [hb'] at hc'; cases hc'
+    · rfl
+
+/-- table `t` cut back to `n` rows -/
+def truncT (T : Table) (n : Nat) : Table := { T with len := n }
+
+/-- the world with table `t` cut back to `n` rows -/
+def trunc (w : World) (t n : Nat) : World := w.setTbl t (truncT (w.tbl t) n)
+
+theorem truncT_add (T : Table) (n : Nat) (e : Ent) (hcap : n + 1 ≤ T.cap) :
+    ((truncT T n).add e).1 = truncT { T with ents := T.ents.set n e } (n + 1) := by
+  have : (truncT T n).cap ≥ (truncT T n).len + 1 := hcap
+  simp only [Table.add, Table.alloc, Table.extend, this, if_true]
+  rfl
+
+theorem set_tbl_self (w : World) (t : Nat) : w.tables.set t (w.tbl t) = w.tables := by
+  apply List.ext_getElem?
+  intro i
+  by_cases hi : t = i
+  · subst hi
+    rcases Nat.lt_or_ge t w.tables.length with h1 | h1
+    · rw [List.getElem?_set_self h1, get_of_lt h1]
+    · rw [List.getElem?_eq_none h1, List.getElem?_eq_none (by rw [List.length_set]; exact h1)]
+  · rw [List.getElem?_set_ne hi]
+
+end World
+
+namespace IdxInv
+
+open World
+
+/-- loop invariant of `createEntities`: I2 holds for the world whose table `t` is cut back to
+    the rows already filled; the table has its final length and enough capacity. -/
+structure CreateInv (t n total : Nat) (w : World) : Prop where
+  inv : IdxInv (World.trunc w t n)
+  lt : t < w.tables.length
+  len : (w.tbl t).len = total
+  cap : total ≤ (w.tbl t).cap
+
+theorem createStep_inv {t start k total : Nat} {w : World} (hk : start + k < total)
+    (hb : total < 2 ^ 32) (hnt : w.tables.length ≤ maxU32)
+    (hJ : CreateInv t (start + k) total w) (hp : PoolFresh w) :
+    CreateInv t (start + (k + 1)) total (createStep t start w k) := by
+  obtain ⟨hinv, hlt, hlen, hcap⟩ := hJ
+  have htl : (World.trunc w t (start + k)).tables.length = w.tables.length := by
+    simp only [World.trunc, setTbl_tables, List.length_set]
+  have httbl : (World.trunc w t (start + k)).tbl t = truncT (w.tbl t) (start + k) :=
+    setTbl_tbl_self _ hlt
+  have hpl := hinv.place (w.pool.get).2 (t := t) (by rw [htl]; exact hlt)
+    (by rw [httbl]; show start + k + 1 < 2 ^ 32; omega) hp.1
+    (hinv.fresh_of_free _ (by
+      intro t' r' hx
+      rw [htl, hp.2 t' r' hx]; exact hnt))
+  have hnewtbl : (createStep t start w k).tbl t =
+      { w.tbl t with ents := (w.tbl t).ents.set (start + k) (w.pool.get).2 } := by
+    apply tbl_of_get; rw [createStep_tables]; exact List.getElem?_set_self hlt
+  refine ⟨hpl.congr ?_ ?_, ?_, ?_, ?_⟩
+  · -- entities
+    show (createStep t start w k).entities = _
+    rw [place_entities, httbl, createStep_entities]
+    rfl
+  · -- tables
+    simp only [World.trunc, setTbl_tables, place_tables, List.set_set]
+    rw [hnewtbl, createStep_tables, List.set_set, setTbl_tbl_self _ hlt,
+      truncT_add _ _ _ (by show start + k + 1 ≤ (w.tbl t).cap; omega)]
+    rfl
+  · rw [createStep_tables, List.length_set]; exact hlt
+  · rw [hnewtbl]; exact hlen
+  · rw [hnewtbl]; exact hcap
+
+/-- **2g** `createEntities t count` keeps I2, provided the pool hands out a fresh handle at
+    every iteration (`PoolFresh` of the state reached: ID at most one past the index and not
+    indexed to a table — so in particular the handles are pairwise distinct). -/
+theorem createEntities {w : World} (h : IdxInv w) {t count : Nat} (hlt : t < w.tables.length)
+    (hnt : w.tables.length ≤ maxU32) (hb : (w.tbl t).len + count < 2 ^ 32)
+    (hp : ∀ k : Nat, k < count → PoolFresh (createPrefix w t count k)) :
+    IdxInv (createEntitiesW w t count) := by
+  have hT := get_of_lt hlt
+  have hS := h.shape t _ hT
+  have hlenk : ∀ k : Nat, (createPrefix w t count k).tables.length = w.tables.length := by
+    intro k
+    induction k with
+    | zero => simp only [createPrefix, List.range_zero, List.foldl_nil, modTbl_tables, List.length_set]
+    | succ k ih => rw [createPrefix_succ, createStep_tables, List.length_set, ih]
+  have hJ : ∀ k : Nat, k ≤ count →
+      CreateInv t ((w.tbl t).len + k) ((w.tbl t).len + count) (createPrefix w t count k) := by
+    intro k
+    induction k with
+    | zero =>
+      intro _
+      have h0 : createPrefix w t count 0 = w.modTbl t fun T => T.alloc count := rfl
+      have htb : (w.modTbl t fun T => T.alloc count).tbl t = (w.tbl t).alloc count :=
+        modTbl_tbl_self _ hlt
+      have hSa := Table.alloc_shape hS count hb
+      refine ⟨?_, ?_, ?_, ?_⟩
+      · rw [h0]
+        have hS' : (truncT ((w.tbl t).alloc count) ((w.tbl t).len + 0)).Shape := by
+          have he := Table.extend_shape hS count hb
+          exact
+            { len_le := by
+                show (w.tbl t).len + 0 ≤ ((w.tbl t).extend count).cap
+                have := Table.extend_cap_ge (w.tbl t) count hb; omega
+              ents_len := he.ents_len
+              cols_len := he.cols_len
+              zst_len := he.zst_len
+              col_len := he.col_len
+              zero_tail := by
+                intro col hcol r hr
+                have hr' : (w.tbl t).len + 0 ≤ r := hr
+                exact he.zero_tail col hcol r (by rw [Table.extend_len]; omega)
+              zst_zero := he.zst_zero }
+        have := h.of_same_rows t (truncT ((w.tbl t).alloc count) ((w.tbl t).len + 0)) hS'
+          (Table.alloc_id _ _) (Nat.add_zero _)
+          (fun r hr => Table.extend_getEntity_lt (w.tbl t) count r (by
+            have : r < (w.tbl t).len + 0 := hr
+            omega))
+        refine this.congr rfl ?_
+        simp only [World.trunc, setTbl_tables, modTbl_tables, List.set_set]
+        rw [htb]
+      · rw [h0, modTbl_tables, List.length_set]; exact hlt
+      · rw [h0, htb, Table.alloc_len]
+      · rw [h0, htb]
+        have := hSa.len_le
+        rw [Table.alloc_len] at this; exact this
+    | succ k ih =>
+      intro hk
+      rw [createPrefix_succ]
+      exact createStep_inv (by omega) hb (by rw [hlenk]; exact hnt) (ih (by omega)) (hp k (by omega))
+  obtain ⟨hinv, _, hlen, _⟩ := hJ count (Nat.le_refl _)
+  refine hinv.congr rfl ?_
+  show (createPrefix w t count count).tables = _
+  simp only [World.trunc, setTbl_tables]
+  have : truncT ((createPrefix w t count count).tbl t) ((w.tbl t).len + count) =
+      (createPrefix w t count count).tbl t := by
+    rw [← hlen]; rfl
+  rw [this, set_tbl_self]
 
 end IdxInv
 
